@@ -17,7 +17,7 @@ PROPERTY = 'C07'
 LEVEL = 'exploration'
 RULE = ('E1 exhaustive product: every encoding (DER, CER, BER def/indef x chunk {0,2}) of every (type, value) of '
         'universe slices LEAF,TAGS(depth<=1 + depth-2 sample),REC,OF,CH,NEST x tails {empty, 00, 0000, 000000, FF, 0500, '
-        'another encoding}; one-shot decode must return (value, tail). Streaming clause: streams of n in {1,2,3} '
+        'another encoding}; one-shot decode must return (value, tail), also from a raw stream (seekable or not) that hands out at most 16 octets per read followed by a 40-octet tail. Streaming clause: streams of n in {1,2,3} '
         'concatenated encodings presented as BytesIO, as another seekable stream and as a source that cannot seek (behind the library wrapper), one object per encoding and (seekable kinds) stream.tell() == end offset after each. '
         'Inputs are the reference-model encodings (decoder is the unit under test); distinct = digest of '
         '(bytes, tail, decoder).')
@@ -27,12 +27,56 @@ ASSUMPTIONS = [
     'CPython 3.12, PYTHONHASHSEED=0',
 ]
 TAILS = (b'', b'\x00', b'\x00\x00', b'\x00\x00\x00', b'\xff', b'\x05\x00', b'\x02\x01\x07')
+LONG_TAIL = bytes(range(0x30, 0x58))
+
+
+class Dribble(io.RawIOBase):
+    """a raw stream that returns at most 16 octets per read(n), everything left for read(-1)"""
+
+    def __init__(self, data, seekable):
+        self._b = io.BytesIO(data)
+        self._seekable = seekable
+
+    def readable(self):
+        return True
+
+    def seekable(self):
+        return self._seekable
+
+    def seek(self, pos, whence=0):
+        if not self._seekable:
+            raise io.UnsupportedOperation('seek')
+        return self._b.seek(pos, whence)
+
+    def tell(self):
+        if not self._seekable:
+            raise io.UnsupportedOperation('tell')
+        return self._b.tell()
+
+    def read(self, n=-1):
+        if n is None or n < 0:
+            return self._b.read()
+        return self._b.read(min(n, 16))
+
+    def readinto(self, b):
+        d = self._b.read(min(len(b), 16))
+        b[:len(d)] = d
+        return len(d)
+
+
 class Untellable(object):
     def __init__(self, raw):
         self.raw = raw
+        self.closed_by_library = False
 
     def read(self, n=-1):
+        if self.closed_by_library:
+            raise ValueError('I/O operation on closed file')
         return self.raw.read(n)
+
+    def close(self):
+        # the caller's stream: nobody but the caller closes it
+        self.closed_by_library = True
 
     def seekable(self):
         return False
@@ -129,6 +173,22 @@ def check_case(idx, name, T, v, tier, R, others):
                 else:
                     for f in f2:
                         R.features[f] += 1
+            # the one-shot call on a raw stream that hands out at most 16 octets per read(n) (read(-1) reads to
+            # the end, as io.RawIOBase does): what follows the encoding comes back whole, however long it is
+            if len(data) <= 16:
+                for kind in ('dribble-seekable', 'dribble-nonseekable'):
+                    t = LONG_TAIL
+                    R.evaluations += 1
+                    R.nontrivial((data, 'dribble', kind, decname))
+                    f2 = feats | {'form:' + form, 'dec:' + decname, 'tail:long', 'kind:' + kind}
+                    rec = {'slice': name, 'T': T, 'v': v, 'form': form, 'dec': decname, 'tail': t, 'kind': kind}
+                    d = CM.decode_to_abs(decname, Dribble(data + t, kind.endswith('-seekable')), T, spec)
+                    if d[0] == 'exc':
+                        R.violation('decode.error', rec, CM.exc_text(d[1]) + ' on a dribbling stream holding ' + data.hex(),
+                                    '(%r, 40-octet tail)' % (v,), pyasn1_site(d[1]), f2, idx)
+                    elif d[0] == 'ok' and bytes(d[2]) != t:
+                        R.violation('remainder', rec, 'remainder of %d octets after %s' % (len(d[2]), data.hex()),
+                                    'the 40 octets that follow', decname + '.decoder', f2, idx)
     # streaming clause: n concatenated encodings of this value in different forms
     forms = [(f, fam, d) for f, fam, d in encs if len(d) <= 400]
     if not forms:
@@ -137,7 +197,8 @@ def check_case(idx, name, T, v, tier, R, others):
     for seq in seqs:
         if not seq:
             continue
-        for decname, kind in (('ber', 'bytesio'), ('der', 'bytesio'), ('ber', 'seekable'), ('ber', 'nonseekable'), ('der', 'nonseekable')):
+        for decname, kind in (('ber', 'bytesio'), ('der', 'bytesio'), ('ber', 'seekable'), ('ber', 'nonseekable'), ('der', 'nonseekable'),
+                              ('ber', 'nonseekable/decoder-per-item')):
             if not all(accepts(decname, f) for f, _, _ in seq):
                 continue
             if decname == 'der' and 'any_nonder' in feats:
@@ -162,7 +223,21 @@ def check_case(idx, name, T, v, tier, R, others):
                 ends.append(acc)
             try:
                 got = []
-                for obj in STREAMERS[decname](bio, asn1Spec=spec):
+                if kind.endswith('decoder-per-item'):
+                    # the same source handed to a new decoder for every item (header with one schema, body with
+                    # another, in applications); a decoder that is done with must leave the source usable
+                    for _ in seq:
+                        it = iter(STREAMERS[decname](bio, asn1Spec=spec))
+                        obj = next(it)
+                        del it
+                        if isinstance(obj, pyerr.SubstrateUnderrunError) or obj is None:
+                            got.append(('underrun', None))
+                            break
+                        got.append((B.abs_of(obj, T, spec), None))
+                    items = []
+                else:
+                    items = STREAMERS[decname](bio, asn1Spec=spec)
+                for obj in items:
                     if isinstance(obj, pyerr.SubstrateUnderrunError) or obj is None:
                         got.append(('underrun', bio.tell()))
                         break
